@@ -56,6 +56,25 @@ pub enum TypeClass {
     Unknown,
 }
 
+/// Frame types no HTTP/3 document of h3's scope defines: small ones next to the defined and the
+/// HTTP/2-reserved values (0xa ALTSVC, 0xc ORIGIN are real extension frames), grease forms, large ones.
+pub const UNKNOWN_TYPES: [u64; 14] = [0x0a, 0x0b, 0x0c, 0x0e, 0x0f, 0x10, 0x1f, 0x20, 0x22, 0x3f, 0x40, 0x42, 0x2a2a, (1 << 62) - 2];
+
+thread_local! {
+    static UNKNOWN_SALT: std::cell::Cell<u64> = const { std::cell::Cell::new(0) };
+}
+
+/// Per-case choice of the "unknown" frame types the scripted peers use (set from the case seed).
+pub fn set_unknown_salt(salt: u64) {
+    UNKNOWN_SALT.with(|s| s.set(salt));
+}
+
+/// The k-th unknown frame type of the current case.
+pub fn unknown_type(k: u64) -> u64 {
+    let salt = UNKNOWN_SALT.with(|s| s.get());
+    UNKNOWN_TYPES[(salt.wrapping_add(k.wrapping_mul(5)) % UNKNOWN_TYPES.len() as u64) as usize]
+}
+
 pub fn classify(ty: u64) -> TypeClass {
     match ty {
         T_DATA | T_HEADERS | T_CANCEL_PUSH | T_SETTINGS | T_PUSH_PROMISE | T_GOAWAY
